@@ -13,6 +13,8 @@ import (
 	"fmt"
 	"math/rand"
 	"os"
+	"os/exec"
+	"path/filepath"
 	"runtime"
 	"sort"
 	"strings"
@@ -559,14 +561,29 @@ func (d *driver) stateHash(o op) (uint64, string) {
 	return report.HashStr(s), s
 }
 
+var mapsMade int // per process; the shards are single-threaded
+
 // runCase executes the case; it returns the first divergence. visit receives the transition class of
 // the LAST operation (every proper prefix is a case of its own in the enumeration) or, with
 // visitAll, of every operation.
 func runCase(k kase, visit func(h uint64, s string), visitAll bool) (v *vio, illegal bool) {
+	v, at := runCaseAt(k, visit, visitAll)
+	return v, v == nil && at >= 0
+}
+
+// runCaseAt also reports the index of the step at which the case stopped: the violating step, or the
+// illegal step (v == nil), or -1 when the case ran to its end.
+func runCaseAt(k kase, visit func(h uint64, s string), visitAll bool) (v *vio, at int) {
+	// Every Map registers its sync.Pool in the runtime's pool list, which keeps the whole map reachable
+	// until the second garbage collection after that: what one collection cycle allocates stays live
+	// in the next, so the heap must not be allowed to pace itself. Collect at fixed case counts.
+	if mapsMade++; mapsMade%(1<<16) == 0 {
+		runtime.GC()
+	}
 	d := &driver{k: k, m: iterable.NewMap[int, int](), its: make([]iterT, k.Slots), mod: newModel(k.Keys, k.Slots)}
 	for i, o := range k.Ops {
 		if !d.legal(o) {
-			return nil, true
+			return nil, i
 		}
 		d.step = i
 		last := i == len(k.Ops)-1
@@ -576,18 +593,66 @@ func runCase(k kase, visit func(h uint64, s string), visitAll bool) (v *vio, ill
 			h, hs = d.stateHash(o)
 		}
 		if v := d.apply(o); v != nil {
-			return v, false
+			return v, i
 		}
 		if k.Probe == probeAll || last {
 			if v := d.probe(); v != nil {
-				return v, false
+				return v, i
 			}
 		}
 		if visit != nil && (last || visitAll) {
 			visit(h, hs)
 		}
 	}
-	return nil, false
+	return nil, -1
+}
+
+// ---------------------------------------------------------------------------------------------
+// collector: what one shard (child process) observed
+
+type vioRec struct {
+	Sig     string `json:"sig"`
+	What    string `json:"what"`
+	Witness kase   `json:"witness"`
+	Count   int    `json:"count"`
+}
+
+type collector struct {
+	Evals    int64            `json:"evals"`
+	Counters map[string]int64 `json:"counters"`
+	Distinct []uint64         `json:"distinct"`
+	Samples  []string         `json:"samples"`
+	Vios     []*vioRec        `json:"vios"`
+
+	seen  map[uint64]struct{}
+	bysig map[string]*vioRec
+}
+
+func newCollector() *collector {
+	return &collector{Counters: map[string]int64{}, seen: map[uint64]struct{}{}, bysig: map[string]*vioRec{}}
+}
+
+func (c *collector) visit(h uint64, s string) {
+	if _, ok := c.seen[h]; !ok {
+		c.seen[h] = struct{}{}
+		if len(c.Samples) < 2 {
+			c.Samples = append(c.Samples, s)
+		}
+	}
+}
+
+func (c *collector) violation(sig, what string, k kase) {
+	if r, ok := c.bysig[sig]; ok {
+		r.Count++
+		// keep the shortest witness per signature
+		if len(k.Ops) < len(r.Witness.Ops) {
+			r.What, r.Witness = what, k
+		}
+		return
+	}
+	r := &vioRec{sig, what, k, 1}
+	c.bysig[sig] = r
+	c.Vios = append(c.Vios, r)
 }
 
 // ---------------------------------------------------------------------------------------------
@@ -633,27 +698,18 @@ func (g gen) next(keys, slots int, f func(o op, g2 gen)) {
 	}
 }
 
-type visitor struct {
-	seen    map[uint64]struct{}
-	samples []string
-}
-
-func (vs *visitor) visit(h uint64, s string) {
-	if _, ok := vs.seen[h]; !ok {
-		vs.seen[h] = struct{}{}
-		if len(vs.samples) < 2 {
-			vs.samples = append(vs.samples, s)
-		}
-	}
-}
-
 type enumCfg struct {
 	keys, slots, depth int
 	nohook             bool
+	counter            string
 }
 
-// runNode runs one sequence in both observer modes; true = no violation (the subtree may be extended).
-func runNode(run *report.Run, cfg enumCfg, ops []op, vs *visitor) bool {
+// (the configurations of a tier are listed in planFor)
+
+// runNode runs one sequence in both observer modes; true = no violation (the sequence may be extended).
+// With count=false the node is only used to decide whether its subtree is explored (another shard
+// reports it).
+func runNode(c *collector, cfg enumCfg, ops []op, count bool) bool {
 	clean := true
 	for _, mode := range []string{probeLast, probeAll} {
 		if mode == probeAll && len(ops) < 2 {
@@ -661,98 +717,62 @@ func runNode(run *report.Run, cfg enumCfg, ops []op, vs *visitor) bool {
 		}
 		k := kase{Keys: cfg.keys, Slots: cfg.slots, Probe: mode, NoHook: cfg.nohook, Ops: ops}
 		var visit func(uint64, string)
-		if mode == probeLast && !cfg.nohook {
-			visit = vs.visit
+		if count && mode == probeLast && !cfg.nohook {
+			visit = c.visit
 		}
-		run.Eval(1)
-		if v, _ := runCase(k, visit, false); v != nil {
-			k.Ops = append([]op(nil), ops...)
-			k.Text = seqText(ops)
-			run.Violation(v.sig, v.what+" — sequence: "+k.Text, k)
+		v, _ := runCase(k, visit, false)
+		if count {
+			c.Evals++
+		}
+		if v != nil {
 			clean = false
+			if count {
+				k.Ops = append([]op(nil), ops...)
+				k.Text = seqText(ops)
+				c.violation(v.sig, v.what+" — sequence: "+k.Text, k)
+			}
 		}
+	}
+	if count {
+		c.Counters[cfg.counter]++
 	}
 	return clean
 }
 
-func dfs(run *report.Run, cfg enumCfg, ops []op, g gen, vs *visitor, nodes *int64) {
-	if len(ops) >= cfg.depth {
-		return
-	}
-	g.next(cfg.keys, cfg.slots, func(o op, g2 gen) {
-		ops2 := append(ops, o)
-		*nodes++
-		if runNode(run, cfg, ops2, vs) {
-			dfs(run, cfg, ops2, g2, vs, nodes)
-		}
-	})
-}
-
 // enumerate runs every legal sequence of length 1..depth (prefix-closed; a violating sequence is not
-// extended). Work units are the sequences of length split; they are distributed over all cores.
-func enumerate(run *report.Run, cfg enumCfg, counter string) map[uint64]struct{} {
-	type unit struct {
-		ops []op
-		g   gen
-	}
-	split := 4
+// extended). Work units are the sequences of length split together with everything below them; unit
+// u belongs to shard u mod of. Shorter sequences are run by every shard (so that all prune alike)
+// and counted by shard 0.
+func enumerate(c *collector, cfg enumCfg, shard, of int) {
+	split := 6
 	if cfg.depth < split {
 		split = cfg.depth
 	}
-	units := make(chan unit, 4096)
-	var wg sync.WaitGroup
-	var mu sync.Mutex
-	all := map[uint64]struct{}{}
-	var samples []string
-	for w := 0; w < runtime.NumCPU(); w++ {
-		wg.Add(1)
-		go func() {
-			defer wg.Done()
-			vs := &visitor{seen: map[uint64]struct{}{}}
-			var nodes int64
-			for u := range units {
-				dfs(run, cfg, u.ops, u.g, vs, &nodes)
-			}
-			run.Add(counter, nodes)
-			mu.Lock()
-			for h := range vs.seen {
-				all[h] = struct{}{}
-			}
-			samples = append(samples, vs.samples...)
-			mu.Unlock()
-		}()
-	}
-	// the dispatcher itself runs the sequences shorter than or equal to split
-	vs := &visitor{seen: map[uint64]struct{}{}}
-	var top int64
+	unit := 0
 	var rec func(ops []op, g gen)
 	rec = func(ops []op, g gen) {
-		if len(ops) == split {
-			units <- unit{append([]op(nil), ops...), g}
+		if len(ops) >= cfg.depth {
 			return
 		}
 		g.next(cfg.keys, cfg.slots, func(o op, g2 gen) {
-			ops2 := append(append([]op(nil), ops...), o)
-			top++
-			if runNode(run, cfg, ops2, vs) {
+			ops2 := append(ops, o)
+			count := true
+			switch {
+			case len(ops2) < split:
+				count = shard == 0
+			case len(ops2) == split:
+				mine := unit%of == shard
+				unit++
+				if !mine {
+					return
+				}
+			}
+			if runNode(c, cfg, ops2, count) {
 				rec(ops2, g2)
 			}
 		})
 	}
-	rec(nil, gen{})
-	close(units)
-	wg.Wait()
-	run.Add(counter, top)
-	for h := range vs.seen {
-		all[h] = struct{}{}
-	}
-	if !cfg.nohook {
-		sort.Strings(samples)
-		for i := 0; i < len(samples) && i < 2; i++ {
-			run.Sample("transition class (points L=live D=removed+pinned E=end with #iterators | op@point): " + samples[i])
-		}
-	}
-	return all
+	rec(make([]op, 0, cfg.depth), gen{})
 }
 
 // ---------------------------------------------------------------------------------------------
@@ -841,69 +861,96 @@ func randomCase(rng *rand.Rand, p profile, n int) kase {
 	return k
 }
 
-// shrink cuts a violating random case down to its shortest violating prefix (the violation is at its
-// last step) — kept simple on purpose: the witness stays an exact replay of what was observed.
-func trimToFailure(k kase) kase {
-	for n := 1; n <= len(k.Ops); n++ {
-		kk := k
-		kk.Ops = k.Ops[:n]
-		if v, _ := runCase(kk, nil, false); v != nil {
-			return kk
+func randomPass(c *collector, seed int64, seqs, length, shard, of int) {
+	for i := shard; i < seqs; i += of {
+		rng := rand.New(rand.NewSource(seed*1_000_003 + int64(i)))
+		p := profiles[i%len(profiles)]
+		k := randomCase(rng, p, length)
+		if (i/len(profiles))%2 == 1 {
+			k.Probe = probeLast
+		}
+		v, at := runCaseAt(k, c.visit, true)
+		c.Evals++
+		c.Counters["random_sequences"]++
+		c.Counters["random_operations"] += int64(len(k.Ops))
+		if v != nil {
+			// the witness is the prefix up to the failing step (an exact replay of what was observed)
+			k.Ops = k.Ops[:at+1]
+			k.Text = seqText(k.Ops)
+			if len(k.Text) > 600 {
+				k.Text = "…" + k.Text[len(k.Text)-600:]
+			}
+			c.violation(v.sig, fmt.Sprintf("%s — random sequence %d (%s), %d operations, tail: %s", v.what, i, p.name, len(k.Ops), k.Text), k)
 		}
 	}
-	return k
-}
-
-func randomPass(run *report.Run, seqs, length int, all map[uint64]struct{}) {
-	var mu sync.Mutex
-	var wg sync.WaitGroup
-	sem := make(chan struct{}, runtime.NumCPU())
-	for i := 0; i < seqs; i++ {
-		wg.Add(1)
-		sem <- struct{}{}
-		go func(i int) {
-			defer wg.Done()
-			defer func() { <-sem }()
-			rng := rand.New(rand.NewSource(run.Seed()*1_000_003 + int64(i)))
-			p := profiles[i%len(profiles)]
-			k := randomCase(rng, p, length)
-			if i%2 == 1 {
-				k.Probe = probeLast
-			}
-			vs := &visitor{seen: map[uint64]struct{}{}}
-			v, _ := runCase(k, vs.visit, true)
-			run.Eval(1)
-			run.Add("random_sequences", 1)
-			run.Add("random_operations", int64(len(k.Ops)))
-			if v != nil {
-				kk := trimToFailure(k)
-				if v2, _ := runCase(kk, nil, false); v2 != nil {
-					v = v2
-				} else {
-					kk = k
-				}
-				kk.Text = seqText(kk.Ops)
-				if len(kk.Text) > 600 {
-					kk.Text = "…" + kk.Text[len(kk.Text)-600:]
-				}
-				run.Violation(v.sig, fmt.Sprintf("%s — random sequence %d (%s), %d operations, tail: %s", v.what, i, p.name, len(kk.Ops), kk.Text), kk)
-			}
-			mu.Lock()
-			for h := range vs.seen {
-				all[h] = struct{}{}
-			}
-			mu.Unlock()
-		}(i)
-	}
-	wg.Wait()
 }
 
 // ---------------------------------------------------------------------------------------------
 
+type plan struct {
+	enums                 []enumCfg
+	randomSeqs, randomLen int
+}
+
+// planFor fixes the case lists of a tier (never a time budget).
+func planFor(thorough bool) plan {
+	pick := func(q, t int) int {
+		if thorough {
+			return t
+		}
+		return q
+	}
+	return plan{
+		enums: []enumCfg{
+			{keys: 3, slots: 3, depth: pick(8, 10), counter: "enumerated_sequences_3keys_3iterators"},
+			// one iterator only: deeper
+			{keys: 3, slots: 1, depth: pick(10, 12), counter: "enumerated_sequences_3keys_1iterator"},
+			// API-only pass: same sequences, the structural hook is not consulted, so that a defect is
+			// also reported under the signature of the first API call that exposes it
+			{keys: 3, slots: 3, depth: pick(7, 8), nohook: true, counter: "enumerated_sequences_api_only"},
+		},
+		randomSeqs: pick(8000, 100000), randomLen: 1000,
+	}
+}
+
+// runShard is the work of one child process: its share of the enumerations and of the random
+// sequences.
+func runShard(pl plan, seed int64, shard, of int) *collector {
+	c := newCollector()
+	for _, e := range pl.enums {
+		enumerate(c, e, shard, of)
+	}
+	randomPass(c, seed, pl.randomSeqs, pl.randomLen, shard, of)
+	for h := range c.seen {
+		c.Distinct = append(c.Distinct, h)
+	}
+	return c
+}
+
 func TestCheck(t *testing.T) {
+	// child process: one shard, result written to the file named by the parent. Every fresh Map owns a
+	// sync.Pool whose first use takes a process-wide lock, so 16 goroutines creating millions of maps
+	// serialise on it; 16 single-threaded processes do not (and their pools recycle deterministically).
+	if spec := os.Getenv("VERIF_C10_SHARD"); spec != "" {
+		var shard, of int
+		var seed int64
+		if _, err := fmt.Sscanf(spec, "%d/%d/%d", &shard, &of, &seed); err != nil {
+			t.Fatalf("bad shard spec %q: %v", spec, err)
+		}
+		c := runShard(planFor(os.Getenv("VERIF_TIER") == "thorough"), seed, shard, of)
+		b, err := json.Marshal(c)
+		if err == nil {
+			err = os.WriteFile(os.Getenv("VERIF_C10_OUT"), b, 0o644)
+		}
+		if err != nil {
+			t.Fatalf("shard result: %v", err)
+		}
+		return
+	}
+
 	run := report.New("C10", "exploration")
 	defer run.Finish(t)
-	run.Rule("every legal sequence over {Add(k absent), Remove(k present), NewIterator (<=3 open), It[i].HasNext, It[i].Next, It[i].Close}, k in {a,b,c} (keys introduced in canonical order, i.e. up to renaming of keys), of length 1..depth, each run on a fresh map in two observer modes (observer block = Add on every present key must fail, Remove on every absent key, Len, Get of every key, First, structural hook; after every operation / after the last operation only), plus seeded random sequences of length 1000 over 2-5 keys and up to 8 iterators that also draw Add-present, Remove-absent, Get, Len, First as operations; every call under recover and compared with a sequence-number model, structural hook (links, sentinel, index, no unreferenced removed entry linked, sum of reference counts = open iterators) after every call. distinct = distinct (abstract model state before the call, operation and the list point it acts on), abstract state = the sequence of list points (live entry / removed entry with iterators parked on it / end) each with the number of iterators positioned on it")
+	run.Rule("every legal sequence over {Add(k absent), Remove(k present), NewIterator (<=3 open), It[i].HasNext, It[i].Next, It[i].Close}, k in {a,b,c} (keys introduced in canonical order, i.e. up to renaming of keys), of length 1..depth (bounds per configuration in enumeration_bounds), each run on a fresh map in two observer modes (observer block = Add on every present key must fail, Remove on every absent key, Len, Get of every key, First, structural hook; after every operation / after the last operation only), plus seeded random sequences of length 1000 over 2-5 keys and up to 8 iterators that also draw Add-present, Remove-absent, Get, Len, First as operations; every call under recover and compared with a sequence-number model, structural hook (links, sentinel, index, no unreferenced removed entry linked, sum of reference counts = open iterators) after every call. distinct = distinct (abstract model state before the call, operation and the list point it acts on), abstract state = the sequence of list points (live entry / removed entry with iterators parked on it / end) each with the number of iterators positioned on it")
 	run.Assume("iterators are used by one goroutine and never after Close (the generator emits legal calls only)")
 	run.Assume("values are compared only when ok=true; the error value of Close is not judged")
 	run.Assume("the map treats keys opaquely, so the exhaustive part enumerates sequences up to a renaming of keys")
@@ -912,19 +959,84 @@ func TestCheck(t *testing.T) {
 		replay(run, p)
 		return
 	}
-	depth := run.Pick(8, 10)
-	all := enumerate(run, enumCfg{keys: 3, slots: 3, depth: depth}, "enumerated_sequences")
-	run.Note("depth_bound", depth)
-	run.Note("enumeration", fmt.Sprintf("all legal sequences of length 1..%d over 3 keys and <=3 open iterators, complete up to key renaming; not exhaustive beyond that length", depth))
-	// API-only pass: same sequences, the structural hook is not consulted, so that a defect is also
-	// reported under the signature of the first API call that exposes it
-	apiDepth := run.Pick(6, 8)
-	enumerate(run, enumCfg{keys: 3, slots: 3, depth: apiDepth, nohook: true}, "enumerated_sequences_api_only")
-	run.Note("depth_bound_api_only_pass", apiDepth)
+	pl := planFor(run.Thorough())
+	bounds := map[string]string{}
+	for _, e := range pl.enums {
+		bounds[e.counter] = fmt.Sprintf("all legal sequences of length 1..%d over %d keys and <=%d open iterators, complete up to key renaming", e.depth, e.keys, e.slots)
+	}
+	run.Note("enumeration_bounds", bounds)
+	run.Note("random", fmt.Sprintf("%d seeded sequences of %d operations", pl.randomSeqs, pl.randomLen))
 
-	randomPass(run, run.Pick(4000, 100000), 1000, all)
-	for h := range all {
-		run.Distinct(h)
+	of := runtime.NumCPU()
+	if of > 32 {
+		of = 32
+	}
+	dir, err := os.MkdirTemp("", "verif-c10-")
+	if err != nil {
+		run.Inconclusive("cannot create a temp dir: " + err.Error())
+		return
+	}
+	defer os.RemoveAll(dir)
+	exe, err := os.Executable()
+	if err != nil {
+		run.Inconclusive("cannot find the test binary: " + err.Error())
+		return
+	}
+	run.Note("shards", of)
+	var wg sync.WaitGroup
+	results := make([]*collector, of)
+	errs := make([]error, of)
+	for i := 0; i < of; i++ {
+		wg.Add(1)
+		go func(i int) {
+			defer wg.Done()
+			out := filepath.Join(dir, fmt.Sprintf("shard%d.json", i))
+			cmd := exec.Command(exe, "-test.run", "^TestCheck$", "-test.count", "1", "-test.timeout", "0")
+			cmd.Env = append(os.Environ(), "GOMAXPROCS=1", "VERIF_C10_OUT="+out,
+				"VERIF_TIER="+run.Tier(), fmt.Sprintf("VERIF_C10_SHARD=%d/%d/%d", i, of, run.Seed()))
+			cmd.Stderr = os.Stderr
+			cmd.Stdout = os.Stderr
+			if err := cmd.Run(); err != nil {
+				errs[i] = err
+				return
+			}
+			b, err := os.ReadFile(out)
+			if err != nil {
+				errs[i] = err
+				return
+			}
+			c := newCollector()
+			if err := json.Unmarshal(b, c); err != nil {
+				errs[i] = err
+				return
+			}
+			results[i] = c
+		}(i)
+	}
+	wg.Wait()
+	var samples []string
+	for i, c := range results {
+		if c == nil {
+			run.Inconclusive(fmt.Sprintf("shard %d/%d did not deliver a result: %v", i, of, errs[i]))
+			continue
+		}
+		run.Eval(int(c.Evals))
+		for k, n := range c.Counters {
+			run.Add(k, n)
+		}
+		for _, h := range c.Distinct {
+			run.Distinct(h)
+		}
+		samples = append(samples, c.Samples...)
+		for _, v := range c.Vios {
+			for j := 0; j < v.Count; j++ {
+				run.Violation(v.Sig, v.What, v.Witness)
+			}
+		}
+	}
+	sort.Strings(samples)
+	for i := 0; i < len(samples) && i < 3; i++ {
+		run.Sample("transition class (points L=live D=removed+pinned E=end, each with #iterators on it | op@point): " + samples[i])
 	}
 }
 
